@@ -5,6 +5,7 @@ import (
 	"encoding/hex"
 	"fmt"
 	"net/netip"
+	"reflect"
 	"time"
 
 	"github.com/uhppoted/uhppote-core/types"
@@ -21,6 +22,67 @@ type apiOp struct {
 	name string
 	code byte
 	call func(u uhppote.IUHPPOTE, serial uint32) ([]any, error)
+}
+
+// reflectedOps: operations not in the table below - methods of the client found by reflection (the
+// harness does not know them by name); called with sample arguments, function code learned from
+// the request they send
+var reflectedOps = map[string]bool{}
+
+// discoverOps appends to apiOps every method of the client whose first parameter is a uint32
+// controller id and whose last result is an error, and that apiOps does not list: whatever
+// operations the library has take part in the reply sweeps.
+func discoverOps() (added []string) {
+	known := map[string]bool{"SetAddress": true}
+	for _, op := range apiOps {
+		known[op.name] = true
+	}
+	cl := newClient("SendUDP", sampleSerial)
+	uv := reflect.ValueOf(cl.u)
+	errT := reflect.TypeOf((*error)(nil)).Elem()
+	for i := 0; i < uv.NumMethod(); i++ {
+		name := uv.Type().Method(i).Name
+		mt := uv.Method(i).Type()
+		if known[name] || mt.NumIn() < 1 || mt.In(0).Kind() != reflect.Uint32 || mt.NumOut() < 1 || mt.Out(mt.NumOut()-1) != errT {
+			continue
+		}
+		call := func(u uhppote.IUHPPOTE, serial uint32) ([]any, error) {
+			m := reflect.ValueOf(u).MethodByName(name)
+			t := m.Type()
+			args := []reflect.Value{reflect.ValueOf(serial).Convert(t.In(0))}
+			for k := 1; k < t.NumIn(); k++ {
+				if t.IsVariadic() && k == t.NumIn()-1 {
+					break
+				}
+				v := reflect.New(t.In(k)).Elem()
+				switch v.Kind() {
+				case reflect.Uint8, reflect.Uint16, reflect.Uint32, reflect.Uint64, reflect.Uint:
+					v.SetUint(1)
+				case reflect.Int8, reflect.Int16, reflect.Int32, reflect.Int64, reflect.Int:
+					v.SetInt(1)
+				case reflect.Bool:
+					v.SetBool(true)
+				}
+				args = append(args, v)
+			}
+			outs := m.Call(args)
+			err, _ := outs[len(outs)-1].Interface().(error)
+			vals := []any{}
+			for _, o := range outs[:len(outs)-1] {
+				vals = append(vals, o.Interface())
+			}
+			return vals, err
+		}
+		cl.answer = nil
+		cl.f.Reset()
+		if p, _, _ := vk.Guard(func() { call(cl.u, sampleSerial) }); p || cl.f.NumCalls() != 1 || len(cl.f.Calls[0].Request) != 64 {
+			continue
+		}
+		apiOps = append(apiOps, apiOp{name, cl.f.Calls[0].Request[1], call})
+		reflectedOps[name] = true
+		added = append(added, name)
+	}
+	return
 }
 
 func res(err error, v ...any) ([]any, error) { return v, err }
